@@ -130,10 +130,12 @@ func (r *Report) Check(ok bool, construct, pos, okDetail, badDetail string) bool
 	return ok
 }
 
-func (r *Report) Note(format string, a ...interface{}) { r.Notes = append(r.Notes, fmt.Sprintf(format, a...)) }
-func (r *Report) Assumption(s string)                  { r.Assume = append(r.Assume, s) }
-func (r *Report) NotDecided(s string)                  { r.NotDec = append(r.NotDec, s) }
-func (r *Report) Count(k string, n int)                { r.Counters[k] += n }
+func (r *Report) Note(format string, a ...interface{}) {
+	r.Notes = append(r.Notes, fmt.Sprintf(format, a...))
+}
+func (r *Report) Assumption(s string)   { r.Assume = append(r.Assume, s) }
+func (r *Report) NotDecided(s string)   { r.NotDec = append(r.NotDec, s) }
+func (r *Report) Count(k string, n int) { r.Counters[k] += n }
 
 // ---------------------------------------------------------------- known findings
 
